@@ -2,7 +2,7 @@
 """Mechanical mutation screening of the checks (complements the hand-made seeded changes).
 
   mutate.py gen                       enumerate mutants of the three crates -> /tmp/mutants/
-  mutate.py run [--jobs N] [--sample K] [--only ID,ID]   evaluate mutants, results -> mutation/results.jsonl
+  mutate.py run [--jobs N] [--sample K] [--only ID,ID] [--ops rel,ari,..] [--files substr,..]   evaluate mutants, results -> mutation/results.jsonl
   mutate.py seeds [--jobs N]          evaluate the stored seeded changes with the same (smoke) pipeline
   mutate.py report                    summary of mutation/results.jsonl -> mutation/REPORT.md
 
@@ -271,6 +271,9 @@ def run(argv):
     if "--files" in argv:
         pats = argv[argv.index("--files") + 1].split(",")
         index = [m for m in index if any(x in m["file"] for x in pats)]
+    if "--ops" in argv:
+        ops = argv[argv.index("--ops") + 1].split(",")
+        index = [m for m in index if m["op"].split(":")[0] in ops]
     if "--sample" in argv:
         k = int(argv[argv.index("--sample") + 1])
         index = sorted(index, key=lambda m: hashlib.sha1(("s1" + m["id"] + m["file"] + str(m["line"]) + m["op"]).encode()).hexdigest())[:k]
